@@ -23,7 +23,7 @@ ASSUMPTIONS = ['e > t', 'node attribute names differ from the id key; attribute 
 TECHNIQUE = 'round-trip PBT through json.dumps/json.loads with structural oracle on the node-link data'
 BUDGET = {'quick': {'cases': 10000, 'seconds': 45}, 'thorough': {'cases': 400000, 'seconds': 540}}
 KINDS = ['add', 'add', 'add', 'add', 'add_from', 'path', 'node', 'node', 'node', 'nodes_from', 'recip', 'recip']
-GATTR = st.dictionaries(st.sampled_from(['name', 'meta', 'tags']), gen.ATTR_VALUES, max_size=2)
+GATTR = st.dictionaries(st.sampled_from(['name', 'meta', 'tags', 'edge_removal', 'data', 'directed']), gen.ATTR_VALUES, max_size=2)
 
 
 def strategy(tier):
